@@ -32,6 +32,7 @@ REQUIRED_CLASSES = {
                "wrapper_len>=2", "emitter+photon", "initial_state", "creg_reused", "compiler_reused"],
     "large": ["entangling", "measuring", "random_outcome", "register_index>=10", "emitter+photon"],
     "incremental": ["recompiled_after_growth", "entangling", "measuring"],
+    "shared_compiler": ["same_size_other_split", "entangling", "measuring"],
 }
 
 SETTINGS = [0, 1, "probabilistic"]
@@ -234,6 +235,35 @@ def check_incremental(case, sub="incremental"):
     return Info(nontrivial=("entangling" in cl and len(cuts) >= 2), classes=cl)
 
 
+def check_shared(case, sub="shared_compiler"):
+    """one compiler object per backend compiles several different circuits in a row (same number of qubits, other split into
+    emitters and photons, other operations): every result is that of the circuit being compiled"""
+    comps = {b: _compilers()[b]() for b in ("stab", "dm")}
+    cl = []
+    splits = set()
+    for desc in case["circs"]:
+        splits.add((desc["ne"], desc["np"]))
+        for backend in ("stab", "dm"):
+            for setting in (0, 1):
+                run_config(desc, backend, setting, case["seed"], None, sub=sub, comp=comps[backend])
+        cl += gc.classes_of(desc)
+    if len(splits) >= 2:
+        cl.append("same_size_other_split")
+    return Info(nontrivial=len(splits) >= 2, classes=sorted(set(cl)))
+
+
+@st.composite
+def st_shared(draw):
+    nq = draw(st.integers(2, 4))
+    circs = []
+    for _ in range(draw(st.integers(2, 3))):
+        ne = draw(st.integers(0, nq))
+        nc = draw(st.integers(0, 2))
+        ops_ = draw(st.lists(gc.st_op(ne, nq - ne, nc), min_size=1, max_size=10))
+        circs.append({"ne": ne, "np": nq - ne, "nc": nc, "ops": ops_})
+    return {"circs": circs, "seed": draw(st.integers(0, 2**31 - 1))}
+
+
 class PauliRun:
     """the same textbook execution on the Pauli-algebra simulator (any number of qubits)"""
 
@@ -410,6 +440,8 @@ SUBS = [
     Sub("incremental", check_incremental, strategy=lambda tier: st.fixed_dictionaries({
         "circ": gc.st_circuit(max_q=4, max_len=18, max_c=2), "seed": st.integers(0, 2**31 - 1)}), n={"quick": 40, "thorough": 800},
         doc="one circuit object grown in three stages, compiled after each stage by the same two compiler objects"),
+    Sub("shared_compiler", check_shared, strategy=lambda tier: st_shared(), n={"quick": 40, "thorough": 800},
+        doc="two or three different circuits with the same number of qubits compiled in a row by the same compiler objects"),
     Sub("large", check_large, strategy=strat_large, n={"quick": 40, "thorough": 1500},
         doc="stabilizer backend on 9..24 registers (register indices with two digits) x 3 settings vs the Pauli-algebra reference"),
     Sub("small", check_small, enum=enum_small,
